@@ -150,10 +150,16 @@ static bool hist_replay(const Var *v, const int *h, int n, int *ki, uint8_t *twe
     for (i = 0; i < n; ++i) {
         switch (h[i]) {
         case H_KEY0: case H_KEY1: r = ob->setKey(KEYS[h[i] - H_KEY0], (size_t)v->klen); *ki = h[i] - H_KEY0; memset(tweak, 0, 16); *mode = 0; if (!r) { sprintf(why, "%s returned false", HNAME[h[i]]); return false; } break;
-        case H_KEYBAD: r = ob->setKey(KEYS[1], (size_t)v->klen + 1); if (r) { sprintf(why, "setKey accepted a wrong length"); return false; } break;
+        case H_KEYBAD: {   /* one too long, one too short, none, and the right length plus 2^8, 2^16, 2^32 (a length kept in a narrower type) */
+            const size_t bad[7] = {(size_t)v->klen + 1, (size_t)v->klen - 1, 0, (size_t)v->klen + 256, (size_t)v->klen + 65536, (size_t)v->klen + ((size_t)1 << 32), (size_t)v->klen + 512};
+            for (int bi = 0; bi < 7; ++bi) { r = ob->setKey(KEYS[1], bad[bi]); if (r) { sprintf(why, "setKey accepted the wrong length %zu", bad[bi]); return false; } }
+            break; }
         case H_TW0: case H_TW1: case H_TW2: case H_TW3: r = ard_set_tweak(v->id, HTW[h[i] - H_TW0], (size_t)v->bs); memcpy(tweak, HTW[h[i] - H_TW0], 16); if (!r) { sprintf(why, "%s returned false", HNAME[h[i]]); return false; } break;
         case H_TWNULL: r = ard_set_tweak(v->id, NULL, (size_t)v->bs); memset(tweak, 0, 16); if (!r) { sprintf(why, "setTweak(NULL) returned false"); return false; } break;
-        case H_TWBAD: r = ard_set_tweak(v->id, HTW[2], (size_t)v->bs - 1); if (r) { sprintf(why, "setTweak accepted a wrong length"); return false; } break;
+        case H_TWBAD: {
+            const size_t bad[7] = {(size_t)v->bs - 1, (size_t)v->bs + 1, 0, (size_t)v->bs + 256, (size_t)v->bs + 65536, (size_t)v->bs + ((size_t)1 << 32), (size_t)v->bs + 512};
+            for (int bi = 0; bi < 7; ++bi) { r = ard_set_tweak(v->id, HTW[2], bad[bi]); if (r) { sprintf(why, "setTweak accepted the wrong length %zu", bad[bi]); return false; } }
+            break; }
         case H_CLEARKEY: ob->clear(); r = ob->setKey(KEYS[0], (size_t)v->klen); *ki = 0; memset(tweak, 0, 16); *mode = 0; if (!r) { sprintf(why, "setKey after clear returned false"); return false; } break;
         default: ((Mantis8 *)ob)->swapModes(); *mode = !*mode; break;
         }
@@ -232,7 +238,8 @@ static void ctr_sequence(int cls, int iv, const int *seq, int n, int rekey_after
     if (cswhen == 2) ok &= a->setCounterSize((size_t)csize);
     ok &= a->setIV(IVS[iv], 16);
     if (cswhen == 1) ok &= a->setCounterSize((size_t)csize);
-    if (a->setKey(KEYS[0], (size_t)CTR_KLEN[cls] + 1) || a->setIV(IVS[1], 15) || a->setCounterSize(0) || a->setCounterSize(17)) ok = false;      /* wrong lengths / sizes: false, nothing changes */
+    if (a->setKey(KEYS[0], (size_t)CTR_KLEN[cls] + 1) || a->setIV(IVS[1], 15) || a->setCounterSize(0) || a->setCounterSize(17)) ok = false;
+    if (a->setKey(KEYS[0], (size_t)CTR_KLEN[cls] + 256) || a->setIV(IVS[1], 16 + 256) || a->setIV(IVS[1], 16 + 65536) || a->setCounterSize(256 + 4) || a->setCounterSize(((size_t)1 << 32) + 4)) ok = false;      /* wrong lengths / sizes: false, nothing changes */
     ctr_init(CK_S128, BE_GEN, &co);
     if (CTR_TWEAKED[cls]) { ctr_set_tweaked_key(CK_S128, &co, KEYS[cls & 1], (unsigned)CTR_KLEN[cls]); skinny128_set_tweaked_key(&mtk, KEYS[cls & 1], (unsigned)CTR_KLEN[cls]); }
     else { ctr_set_key(CK_S128, &co, KEYS[cls & 1], (unsigned)CTR_KLEN[cls], 0); skinny128_set_key(&mk, KEYS[cls & 1], (unsigned)CTR_KLEN[cls]); }
